@@ -43,10 +43,15 @@ Definition row_eqb (x y : orow) : bool :=
 
 (** lifecycle rows get the number of earlier lifecycle rows of the same (side, conn, namespace) in
     field b, so that comparing multisets also compares the per-socket lifecycle sequences *)
+(** Server side: the connection handlers of a socket run on their own goroutine (namespace.go
+    doConnect), its disconnect handlers on the closing goroutine, so their relative order is not
+    fixed by the code (a socket admitted on a closed connection is closed at once): server rows are
+    numbered per kind (k-th connect, k-th disconnect of that socket).  Client callbacks are
+    sequential: numbered over all kinds. *)
 Definition same_sock (x y : orow) : bool :=
-  let '(k1, s1, c1, n1, _, _, _) := x in
-  let '(k2, s2, c2, n2, _, _, _) := y in
-  (k1 =? 2) && (k2 =? 2) && Bool.eqb s1 s2 && (c1 =? c2) && nseqb n1 n2.
+  let '(k1, s1, c1, n1, a1, _, _) := x in
+  let '(k2, s2, c2, n2, a2, _, _) := y in
+  (k1 =? 2) && (k2 =? 2) && Bool.eqb s1 s2 && (c1 =? c2) && nseqb n1 n2 && (negb s1 || (a1 =? a2)).
 
 Fixpoint index_life (seen l : list orow) : list orow :=
   match l with
